@@ -124,6 +124,26 @@ def scalar_case(task):
                 break
     except Exception as ex:     # noqa: BLE001
         out['bad'].append(('dtype', 'raised', repr(ex)[:120]))
+    # --- homogeneity: tiny impulses, and tiny impulses on a constant offset
+    # (a perturbation on an O(1) background), reproduce the same columns
+    try:
+        for idx, col in cols.items():
+            if any(idx[a] != 0 for a in range(3) if a != axis):
+                continue
+            for amp, off in ((1e-9, 0.0), (1e-7, 1.0), (1e-3, -1e4)):
+                e = np.full(shape, off)
+                e[idx] += amp
+                r = np.asarray(op(e))
+                out['entries'] += col.size
+                tol = TOL * scale * (amp + 10 * abs(off))
+                if r.shape != col.shape or not (
+                        np.abs(r - (e[idx] - off) * col).max() <= tol):
+                    out['bad'].append(('homogeneity', amp, off, list(idx)))
+                    break
+            if out['bad']:
+                break
+    except Exception as ex:     # noqa: BLE001
+        out['bad'].append(('homogeneity', 'raised', repr(ex)[:120]))
     # --- superposition along the axis (justifies reading the matrix)
     line = [0, 0, 0]
     rng = np.random.RandomState(7)
